@@ -71,7 +71,33 @@ def run(ctx):
     texts += [G5.render(rng, G5.document(rng)) for _ in range(ctx.n(1000, 15000))]
     texts += ['License: a\n b\n .x\n', 'Format: f\n\nLicense:\n\nUnknown-Foo: bar baz\n\nFiles: *\n',
               'Format: f\n\nLicense:\n\nUnknown: a\nUnknown: b\n\nFiles: *\n']
+    # the same texts inside a clear-sign envelope: the copyright object is built from the text as given, envelope included
+    def signed(t):
+        return '-----BEGIN PGP SIGNED MESSAGE-----\nHash: SHA512\n\n' + t.rstrip('\n') + '\n-----BEGIN PGP SIGNATURE-----\nVersion: GnuPG v1\n\niQEzBAEBCgAdFiEE\n=abcd\n-----END PGP SIGNATURE-----\n'
+    texts += [signed(t) for t in texts[:ctx.n(300, 3000)] if t.strip() and '\r' not in t]
     fails = ctx.prop('prop:conservation', texts, p_conserve)
+    # a one-line text that happens to name an existing file is a text
+    import os
+    cwd = os.getcwd()
+    try:
+        os.chdir(ctx.scratch)
+        os.makedirs(os.path.join(ctx.scratch, 'debian'), exist_ok=True)
+        names = ['copyright', 'COPYING', 'debian/copyright', 'LICENSE']
+        for fn in names:
+            with open(os.path.join(ctx.scratch, fn), 'w') as f:
+                f.write('Format: x\n\nFiles: *\nCopyright: 2019 from-the-file\nLicense: MIT\n')
+        fails += ctx.prop('prop:conservation:texts-that-name-files', names + [os.path.join(ctx.scratch, fn) for fn in names] + ['./' + fn for fn in names], p_conserve)
+    finally:
+        os.chdir(cwd)
+        for fn in names:
+            try:
+                os.unlink(os.path.join(ctx.scratch, fn))
+            except OSError:
+                pass
+        try:
+            os.rmdir(os.path.join(ctx.scratch, 'debian'))
+        except OSError:
+            pass
     # the file route: texts that end in every way a file ends, and large ones with a line end on every block boundary
     import os
     fpath = os.path.join(ctx.scratch, 'copyright')
